@@ -26,7 +26,7 @@ PROPS = {
                       "digest crate's blanket/provided methods are not modelled), the 32-byte model of digest's "
                       "Array<u8, U32>, Platform::detect (any platform), SIMD kernels assumed (C05); domain of update: "
                       "fewer than 2^64 bytes in total; finalize(true) of a guts chunk requires chunk counter 0",
-        "units": {"quick": [v("spec_lemmas"), v("traits"), v("hasher"), v("xof"), v("tree")], "thorough": [v("traits", "C", vacuity=False)]},
+        "units": {"quick": [v("spec_lemmas"), v("traits"), v("hasher"), v("xof"), v("tree")], "thorough": [v("traits", "C", vacuity=False), s("C16")]},
         "cone": [r"crate::traits::", r"crate::guts::", r"crate::Hash::as_bytes", r"crate::Hash::from_bytes",
                  r"crate::Hash::From_u8_OUT_LEN__from", r"vf_traits_sequence", r"vf_inherent_sequence", r"vf_guts_chunk",
                  r"\(contract\)"],
